@@ -244,6 +244,24 @@ def main(pid, tier, seed):
                 tr, tid = file_traces(tid, res, enc, meta, desc)
                 traces += tr
 
+    # ---- a ruleset trained again IN PLACE on a list that lacks whole categories (no walk, digit, symbol, capital, year):
+    # ---- what the second training wrote must again be what every loader reads, and the config lists = the files present
+    rich = ['password1', 'Password!', '1qaz2wsx', 'zaq1!', 'love2019', 'abc#1', 'MONKEY12', '123456', '!!', 'qwer1234', 'a1!B2', 'x<3']
+    poor_lists = [['password', 'letmein', 'monkey', 'dragon', 'password'], ['123456', '12345', '123456', '1'], ['love', 'Love', 'LOVE', 'lovelove']]
+    for k, poor in enumerate(poor_lists if tier == 'thorough' else [poor_lists[seed % 3], poor_lists[(seed + 1) % 3]]):
+        enc = rng.choice(['utf-8', 'iso-8859-1'])
+        dest = core.scratch('retrain')
+        r1 = train.train(rich * 2, dest=dest, encoding=enc, ngram=2, alphabet_size=100, coverage=0.6)
+        r2 = train.train(poor, dest=dest, encoding=enc, ngram=2, alphabet_size=100, coverage=0.6) if r1['ok'] else r1
+        if not r2['ok']:
+            tid += 1
+            traces.append({'tid': tid, 'kind': 'file', 'reader': 'trainer', 'ok': False, 'want': [], 'got': []})
+            meta[tid] = {'encoding': enc, 'variant': 'retrained in place', 'error': r2['error'], 'out': r2['stdout'][-300:]}
+            continue
+        n_train += 2
+        tr, tid = file_traces(tid, r2, enc, meta, {'encoding': enc, 'variant': 'retrained in place', 'first_list': rich[:6], 'second_list': poor})
+        traces += tr
+
     verdicts, st = core.validate_traces('TrLine.tla', traces, chunk=200, timeout=600)
     for t in traces:
         v = verdicts[t['tid']]
